@@ -4,6 +4,7 @@ import (
 	"fmt"
 	"go/token"
 	"go/types"
+	"math"
 	"strings"
 
 	"golang.org/x/tools/go/ssa"
@@ -21,12 +22,14 @@ func init() {
 			"64-bit signed type from operands widened BEFORE the addition (a uint32/int32 sum widened afterwards wraps). (S3) NewBlockSigningRater succeeds only behind verifyRatingsData (error checked), whose nil return " +
 			"lies behind min >= 1, min <= max and min <= start <= max; the min/max fields are written only by the constructor. (S4) GetChance returns only GetChancePercentage() of an element of ratingChances and skips a band " +
 			"exactly when the rating is above its threshold. " +
+			"Every conversion of a wider integer to int32 in the rater sits behind dominating comparisons that keep it in range. " +
 			"Not decided (value-level): direction and monotonicity of the steps (float arithmetic of the streak penalty, sign of the configured steps), the chance band arithmetic beyond S4.",
 		Run: runC37,
 	})
 }
 
 func runC37(c *core.Ctx) {
+	c37NoUnboundedNarrowing(c)
 	const pkg = "process/rating"
 	cr := anchorM(c, pkg, "BlockSigningRater", "computeRating")
 	if cr == nil {
@@ -233,4 +236,57 @@ func runC37(c *core.Ctx) {
 	// the bands are looked up in threshold order: the comparator that sorts them indexes the slice being sorted
 	checkSortComparators(c, "C37/chance-is-a-configured-band", c.P.FuncsOfPkg(pkg))
 	c.Floor("C37/chance-is-a-configured-band", 3)
+}
+
+// c37NoUnboundedNarrowing: rating steps travel as int32 while the arithmetic that produces them
+// (step x count) is done wider. Every conversion of a wider integer to int32 in the rater happens
+// where dominating comparisons keep the value inside the int32 range; an unchecked narrowing wraps,
+// and a revert or a decrease turns into a large increase that computeRating then clamps to the
+// maximum rating.
+func c37NoUnboundedNarrowing(c *core.Ctx) {
+	const pkg = "process/rating"
+	n := 0
+	for _, fn := range c.P.FuncsOfPkg(pkg) {
+		if fn.Signature.Recv() == nil || !strings.HasSuffix(fn.Signature.Recv().Type().String(), ".BlockSigningRater") {
+			continue
+		}
+		k := 0
+		core.Instrs(fn, func(in ssa.Instruction) {
+			cv, ok := in.(*ssa.Convert)
+			if !ok {
+				return
+			}
+			dst, isD := cv.Type().Underlying().(*types.Basic)
+			src, isS := cv.X.Type().Underlying().(*types.Basic)
+			if !isD || !isS || dst.Kind() != types.Int32 {
+				return
+			}
+			if src.Kind() != types.Int64 && src.Kind() != types.Int && src.Kind() != types.Uint64 && src.Kind() != types.Uint32 {
+				return
+			}
+			if _, isC := cv.X.(*ssa.Const); isC {
+				return
+			}
+			k++
+			n++
+			c.Sites++
+			key := core.ExprKey(cv.X)
+			lo, hi := false, false
+			for _, f := range core.FactsAt(cv.Block()) {
+				if lb, has := f.LowerBound(key); has && lb >= math.MinInt32 {
+					lo = true
+				}
+				if ub, has := f.UpperBound(key); has && ub <= math.MaxInt32 {
+					hi = true
+				}
+			}
+			if src.Kind() == types.Uint32 || src.Kind() == types.Uint64 {
+				lo = true
+			}
+			c.Check(lo && hi, "C37/no-unbounded-narrowing", fmt.Sprintf("%s/int32#%d", fname(fn), k), cv.Pos(),
+				"the value narrowed to int32 is kept inside the int32 range by dominating comparisons",
+				fmt.Sprintf("%s is converted to int32 without dominating comparisons that keep it in range (lower bound known: %v, upper bound known: %v): for large ratings or counts the step wraps around, a decrease becomes an increase and the rating jumps to the maximum", key, lo, hi))
+		})
+	}
+	c.Floor("C37/no-unbounded-narrowing", 1)
 }
